@@ -336,7 +336,7 @@ func rC08Record(w *World, r *Report) {
 			}
 			p := NewProv(w, m.fn)
 			p.Slice(args[1])
-			if b := p.BadOps(func(string, ssa.Instruction) bool { return false }); len(b) > 0 && !onlySplitterOps(b) {
+			if b := p.BadOps(func(k string, in ssa.Instruction) bool { return k == "strslice" && sepSliceOK(w, in) }); len(b) > 0 && !onlySplitterOps(b) {
 				good = false
 				why += " name argument transformed: " + strings.Join(b, ",")
 			}
